@@ -72,6 +72,12 @@ func (x *Exec) finish() error {
 		if err != nil {
 			return fmt.Errorf("%s: ensures: %v", e.Where, err)
 		}
+		if e.Assumed {
+			// a clause the function's own contract takes on trust (e.g. "the result is a deterministic function of the
+			// argument" for a body made of external calls): no obligation, reported with the trusted base
+			x.trusted["assumed clause (not proved): "+x.key+"#"+e.Label] = true
+			continue
+		}
 		x.oblige(exit, "ensures", e.Label, t, x.fn.Pos(), e.Src, e.Tags)
 	}
 	// frame: everything not named in modifies is unchanged relative to the snapshot
